@@ -229,6 +229,12 @@ structure Built where
   orderBy : List Expr
   deriving Repr
 
+/-- `q.havingStmt != nil && !isCompleteExpr(q.havingStmt)` -/
+def havingIncomplete (h : Expr) : Bool :=
+  match h with
+  | .nil => false
+  | h => !h.complete
+
 def buildFields (st : PState) : Except PErr Built :=
   if st.panicked then .error .panic else
   match st.err with
@@ -237,7 +243,7 @@ def buildFields (st : PState) : Except PErr Built :=
     if !st.allFields && st.selectItems.isEmpty then .error .emptySelect
     else if !completeList st.selectItems then .error .incompleteSelect
     else if !completeList st.orderBy then .error .incompleteOrderBy
-    else if (match st.havingStmt with | .nil => false | h => !h.complete) then .error .incompleteHaving
+    else if havingIncomplete st.havingStmt then .error .incompleteHaving
     else .ok { selectItems := st.selectItems, allFields := st.allFields, having := st.havingStmt,
                orderBy := st.orderBy }
 
@@ -632,10 +638,10 @@ def fieldMachineTable : List (String × String) := [
   ("completeSortField: ", "q.hasOrderBy = true"),
   ("completeSortField: ", "q.curOrderByExpr = nil"),
   ("check: ", "var fieldName string"),
-  ("check: case *stmt.CallExpr / if !function.IsSupportOrderBy(e.FuncType)", "return fmt.Errorf(\"[%s] function not support order by\", e.FuncType)"),
-  ("check: case *stmt.CallExpr / if len(e.Params) != 1", "return errors.New(\"order by function params length invalid\")"),
-  ("check: case *stmt.CallExpr", "fieldName = e.Params[0].Rewrite()"),
-  ("check: case *stmt.FieldExpr", "fieldName = e.Name"),
+  ("check: switch e := q.curOrderByExpr.Expr.(type) / case *stmt.CallExpr / if !function.IsSupportOrderBy(e.FuncType)", "return fmt.Errorf(\"[%s] function not support order by\", e.FuncType)"),
+  ("check: switch e := q.curOrderByExpr.Expr.(type) / case *stmt.CallExpr / if len(e.Params) != 1", "return errors.New(\"order by function params length invalid\")"),
+  ("check: switch e := q.curOrderByExpr.Expr.(type) / case *stmt.CallExpr", "fieldName = e.Params[0].Rewrite()"),
+  ("check: switch e := q.curOrderByExpr.Expr.(type) / case *stmt.FieldExpr", "fieldName = e.Name"),
   ("check: ", "_, ok := q.fieldNames[fieldName]"),
   ("check: if !ok", "return fmt.Errorf(\"order by field not in select fields, order by field: %s\", fieldName)"),
   ("check: ", "return nil"),
@@ -651,12 +657,12 @@ def fieldMachineTable : List (String × String) := [
   ("visitBoolExprLogicalOp: ", "op := stmt.AND"),
   ("visitBoolExprLogicalOp: if ctx.T_OR() != nil", "op = stmt.OR"),
   ("visitBoolExprLogicalOp: ", "q.exprStack.Push(&stmt.BinaryExpr{Operator: op})"),
+  ("resetExprStack: ", "q.exprStack = collections.NewStack()"),
   ("setExprParam: if b.exprStack.Empty()", "return"),
-  ("setExprParam: case *stmt.CallExpr", "expr.Params = append(expr.Params, param)"),
-  ("setExprParam: case *stmt.ParenExpr", "expr.Expr = param"),
-  ("setExprParam: case *stmt.BinaryExpr / if expr.Left == nil", "expr.Left = param"),
-  ("setExprParam: case *stmt.BinaryExpr / else / if expr.Right == nil", "expr.Right = param"),
-  ("resetExprStack: ", "q.exprStack = collections.NewStack()")]
+  ("setExprParam: switch expr := b.exprStack.Peek().(type) / case *stmt.CallExpr", "expr.Params = append(expr.Params, param)"),
+  ("setExprParam: switch expr := b.exprStack.Peek().(type) / case *stmt.ParenExpr", "expr.Expr = param"),
+  ("setExprParam: switch expr := b.exprStack.Peek().(type) / case *stmt.BinaryExpr / if expr.Left == nil", "expr.Left = param"),
+  ("setExprParam: switch expr := b.exprStack.Peek().(type) / case *stmt.BinaryExpr / else / if expr.Right == nil", "expr.Right = param")]
 
 /-- how a parse obtains its parser object and hands the select list to the statement (tied by
 `Generated.C17.parserObject`): a new `queryStmtParser` per `EnterQueryStmt`, built by a composite
@@ -664,10 +670,11 @@ literal that names neither `selectItems` nor `orderBy` nor `groupBy` (nil slices
 creating the statement by a composite literal -/
 def parserObjectTable : List (String × String) := [
   ("EnterQueryStmt", "l.queryStmt = newQueryStmtParse(ctx.T_EXPLAIN() != nil)"),
-  ("newQueryStmtParse", "return &queryStmtParser{explain,fieldNames,baseStmtParser}"),
-  ("newQueryStmtParse.baseStmtParser", "exprStack: collections.NewStack(),namespace,limit"),
-  ("build", "query := &stmt.Query{}"),
-  ("Parse", "sqlListener := listener{}")]
+  ("newQueryStmtParse", "return &queryStmtParser{explain,fieldNames: make(map[string]struct{}),baseStmtParser}"),
+  ("newQueryStmtParse.baseStmtParser", "exprStack: collections.NewStack(),namespace: commonconstants.DefaultNamespace,limit: 20"),
+  ("build", "query := &stmt.Query{}; query.SelectItems = q.selectItems; query.GroupBy = q.groupBy; query.OrderByItems = q.orderBy"),
+  ("Parse", "sqlListener := listener{}"),
+  ("package variables of listener / statement parsers", "")]
 
 /-- `function.IsSupportOrderBy`, `FuncType.String()` and the iota block (tied by
 `Generated.C17.funcTypes`): (name, number, String(), supports order by) -/
